@@ -299,7 +299,7 @@ func checkC05(c *Ctx) {
 				return
 			}
 			ln, isLen := stripConv(idx.Y).(*ssa.Call)
-			if !isLen || CalleeName(ln) != "builtin:len" || ln.Call.Args[0] != ia.X {
+			if !isLen || CalleeName(ln) != "builtin:len" || !c.sameSlice(rr, ln.Call.Args[0], ia.X) {
 				detail = "the cursor is reduced modulo the length of a different slice than the one indexed (out-of-range panic or skipped backends after a membership change)"
 				return
 			}
@@ -483,7 +483,7 @@ func checkC06(c *Ctx) {
 	c.Clause("jumpHash returns a bucket that was compared below numBuckets (in-range structurally)")
 	c.NotDecided("minimal remapping of the integer jump-hash variant over all 2^32 keys × pool sizes (a numeric for-all)")
 
-	c.strategyHealthGuard()
+	c.strategyHealthGuard("IPHashStrategy", "IPHashConsistentStrategy")
 	for _, typ := range []string{"IPHashStrategy", "IPHashConsistentStrategy"} {
 		fn := p.Fn("internal/loadbalancer", typ, "NextBackend")
 		construct := "loadbalancer.(*" + typ + ").NextBackend"
@@ -622,7 +622,7 @@ func checkC06(c *Ctx) {
 					walk(x.X, depth+1)
 					walk(x.Y, depth+1)
 				case *ssa.Call:
-					if CalleeName(x) == "builtin:len" && x.Call.Args[0] == ia.X {
+					if CalleeName(x) == "builtin:len" && c.sameSlice(fn, x.Call.Args[0], ia.X) {
 						usesLen = true
 					}
 					for _, a := range x.Call.Args {
@@ -673,4 +673,36 @@ func checkC06(c *Ctx) {
 	})
 	c.Check(okLoop && okRet, "jump-hash-in-range", "loadbalancer.jumpHash", p.Pos(jh.Pos()), "the returned bucket is a value of j taken while j < numBuckets",
 		"the returned bucket is not one that was compared below numBuckets (index out of range for some hash values)")
+}
+
+// sameSlice: a and b denote the same slice — the same SSA value, or two loads of the same
+// lock-guarded field of the same object made while its lock is held, in a function that does not
+// store to that field.
+func (c *Ctx) sameSlice(fn *ssa.Function, a, b ssa.Value) bool {
+	if a == b {
+		return true
+	}
+	fa, okA := LoadedField(a)
+	fb, okB := LoadedField(b)
+	if !okA || !okB || fa.Key() != fb.Key() || c.P.DescQ(a, nil) != c.P.DescQ(b, nil) {
+		return false
+	}
+	class, guarded := tLock[fa.Key()]
+	if !guarded {
+		return false
+	}
+	fl := c.P.Locks().Fns[fn]
+	for _, v := range []ssa.Value{a, b} {
+		in, ok := v.(ssa.Instruction)
+		if !ok || fl == nil || fl.Must[in].HoldsClass(class) == 0 {
+			return false
+		}
+	}
+	stored := false
+	instrsOf(fn, func(in ssa.Instruction) {
+		if k, _ := storeKey(in); k == fa.Key() {
+			stored = true
+		}
+	})
+	return !stored
 }
